@@ -400,6 +400,87 @@ impl<B> RequestBuilder<B> {
                 && hm_view(&res.sp_headers()) == hm_view(&self.sp_headers()).push((key_view(header), v)),
 //@@ end
 }
+// ---- authentication helpers and query parameters of the builder (C07: what the caller builds is what goes on the wire)
+pub uninterp spec fn b64_std(b: Seq<u8>) -> Seq<u8>;   // base64 STANDARD alphabet with padding (RFC 4648; `base64` crate, assumed)
+/// `base64::engine::general_purpose::STANDARD.encode(auth.as_bytes())`
+#[verifier::external_body] pub fn vp_b64_of_str(auth: &String) -> (r: String) ensures str_bytes(r@) == b64_std(str_bytes(auth@)) { use base64::Engine; base64::engine::general_purpose::STANDARD.encode(auth.as_bytes()) }
+/// RFC 7617: user-id ":" password (an absent password is the empty one)
+pub open spec fn basic_credentials(user: Seq<u8>, password: Option<Seq<u8>>) -> Seq<u8> { user + seq![58u8] + (match password { Some(p) => p, None => Seq::<u8>::empty() }) }
+/// the bytes of the literal ":" (assumed, like every literal)
+#[verifier::external_body] pub proof fn lemma_colon_lit() ensures str_bytes(":"@) == seq![58u8] { }
+pub open spec fn auth_name() -> Seq<u8> { str_bytes("authorization"@) }
+/// `http::header::AUTHORIZATION`
+#[verifier::external_body] pub fn vp_authorization() -> (r: HeaderName) ensures key_view(r) == auth_name() { http::header::AUTHORIZATION }
+/// a String converts into a header value exactly when its bytes are valid header-value bytes (assumed; `http` crate)
+#[verifier::external_body] pub broadcast proof fn axiom_into_hv_ok_string(s: String) ensures #[trigger] into_hv_ok(s) == hv_ok(str_bytes(s@)) { }
+/// `token.into()` for `impl Into<String>`
+pub uninterp spec fn into_string_spec<T>(t: T) -> Seq<char>;
+#[verifier::external_body] pub fn vp_into_string<T: Into<String>>(t: T) -> (r: String) ensures r@ == into_string_spec(t) { t.into() }
+/// the query pairs of a URL, decoded (url crate `query_pairs`)
+pub uninterp spec fn url_query_pairs(u: &Url) -> Seq<(Seq<char>, Seq<char>)>;
+pub uninterp spec fn to_string_spec<V>(v: V) -> Seq<char>;   // `value.to_string()`
+/// `url.query_pairs_mut().append_pair(key.as_ref(), &value.to_string())` (assumed; `url` crate): one more pair, nothing else of the URL changes
+#[verifier::external_body] pub fn vp_append_pair<K: AsRef<str>, V: ToString>(u: &mut Url, key: K, value: V)
+    ensures url_query_pairs(final(u)) == url_query_pairs(old(u)).push((as_ref_str_spec(key), to_string_spec(value))),
+        url_host(final(u)) == url_host(old(u)), url_port(final(u)) == url_port(old(u)), url_path(final(u)) == url_path(old(u)),
+{ u.query_pairs_mut().append_pair(key.as_ref(), &value.to_string()); }
+impl<B> RequestBuilder<B> {
+//@@ fn src/request/builder.rs impl<B>~RequestBuilder<B> param props=C07
+//@@ rw R1
+self.url.query_pairs_mut().append_pair(key.as_ref(), &value.to_string());
+//@@ =>
+vp_append_pair(&mut self.url, key, value);
+//@@ contract
+        ensures url_query_pairs(&res.sp_url()) == url_query_pairs(&self.sp_url()).push((as_ref_str_spec(key), to_string_spec(value))), // id: one_more_query_pair_in_order [C07]
+            url_path(&res.sp_url()) == url_path(&self.sp_url()) && url_host(&res.sp_url()) == url_host(&self.sp_url()) && url_port(&res.sp_url()) == url_port(&self.sp_url()),
+            res.sp_settings() == self.sp_settings() && res.sp_headers() == self.sp_headers() && res.sp_method() == self.sp_method() && res.sp_body() == self.sp_body(), // id: param_touches_only_the_url [C07,C16]
+//@@ end
+//@@ fn src/request/builder.rs impl<B>~RequestBuilder<B> basic_auth props=C07
+//@@ fmt
+//@@ rw R1
+http::header::AUTHORIZATION
+//@@ =>
+vp_authorization()
+//@@ rw R1
+base64::engine::general_purpose::STANDARD.encode(auth.as_bytes())
+//@@ =>
+vp_b64_of_str(&auth)
+//@@ splice before
+self.header(
+//@@ with
+        broadcast use group_fmt;
+        broadcast use group_into_hv;
+        broadcast use axiom_into_hv_ok_string;
+        proof { lemma_colon_lit(); assert(str_bytes(auth@) =~= basic_credentials(disp_bytes(&username), match password { Some(p) => Some(disp_bytes(&p)), None => None })); }
+//@@ contract
+        requires hv_ok(str_bytes("Basic "@) + b64_std(basic_credentials(disp_bytes(&username), match password { Some(p) => Some(disp_bytes(&p)), None => None }))),   // always true for base64 text; documented: panics on an invalid value
+        ensures res.sp_settings() == self.sp_settings() && res.sp_url() == self.sp_url() && res.sp_method() == self.sp_method() && res.sp_body() == self.sp_body(),
+            exists|v: HeaderValue| hv_bytes(&v) == str_bytes("Basic "@) + b64_std(basic_credentials(disp_bytes(&username), match password { Some(p) => Some(disp_bytes(&p)), None => None })) // id: basic_credentials_are_user_colon_password_in_base64 [C07]
+                && hm_view(&res.sp_headers()) == without(hm_view(&self.sp_headers()), auth_name()).push((auth_name(), v)),
+//@@ end
+//@@ fn src/request/builder.rs impl<B>~RequestBuilder<B> bearer_auth props=C07
+//@@ fmt
+//@@ rw R1
+http::header::AUTHORIZATION
+//@@ =>
+vp_authorization()
+//@@ method R1
+into
+//@@ =>
+vp_into_string(@@RECV)
+//@@ splice before
+self.header(
+//@@ with
+        broadcast use group_fmt;
+        broadcast use group_into_hv;
+        broadcast use axiom_into_hv_ok_string;
+//@@ contract
+        requires hv_ok(str_bytes("Bearer "@) + str_bytes(into_string_spec(token))),   // documented: panics on an invalid header value
+        ensures res.sp_settings() == self.sp_settings() && res.sp_url() == self.sp_url() && res.sp_method() == self.sp_method() && res.sp_body() == self.sp_body(),
+            exists|v: HeaderValue| hv_bytes(&v) == str_bytes("Bearer "@) + str_bytes(into_string_spec(token)) // id: bearer_token_is_sent_verbatim [C07]
+                && hm_view(&res.sp_headers()) == without(hm_view(&self.sp_headers()), auth_name()).push((auth_name(), v)),
+//@@ end
+}
 /// `Method::GET` .. `Method::TRACE` (associated consts of an external type)
 #[verifier::external_body] pub fn vp_method_get() -> (r: Method) ensures method_bytes(&r) == str_bytes("GET"@) { Method::GET }
 #[verifier::external_body] pub fn vp_method_post() -> (r: Method) ensures method_bytes(&r) == str_bytes("POST"@) { Method::POST }
